@@ -73,24 +73,6 @@ def failed(out: str) -> Optional[str]:
     return None
 
 
-def write_cfg(name: str, base: str, overrides: Dict[str, str]) -> str:
-    """Derive a configuration from spec/<base> by replacing 'NAME = value' / 'NAME <- value'
-    lines; written to out/<name>.  Returns the path relative to spec/."""
-    src = open(os.path.join(SPEC, base)).read().splitlines()
-    out = []
-    for line in src:
-        m = re.match(r"^\s*(\w+)\s*(=|<-)\s*(.*)$", line)
-        if m and m.group(1) in overrides:
-            v = overrides[m.group(1)]
-            out.append(f"  {m.group(1)} {'<-' if not re.match(r'^(-?\d+|TRUE|FALSE)$', v) else '='} {v}")
-        else:
-            out.append(line)
-    path = os.path.join(OUT, name)
-    with open(path, "w") as f:
-        f.write("\n".join(out) + "\n")
-    return os.path.relpath(path, SPEC)
-
-
 def simulate(module: str, cfg: str, num: int, depth: int, seed: int, procs: int = 8,
              timeout: int = 1800) -> Tuple[List[List[Dict[str, Any]]], Dict[str, Any]]:
     """Generate ``num`` random behaviours of length ``depth`` with ``procs`` parallel TLC
